@@ -215,8 +215,8 @@ class Repo:
         self._mro_cache[key] = out
         return out
 
-    def walker(self, inline_depth=0, max_paths=4096, recv_types=None, fold=None, tag=None):
-        return Walker(self.resolver(recv_types), max_paths=max_paths, inline_depth=inline_depth, fold=fold, tag=tag)
+    def walker(self, inline_depth=0, max_paths=4096, recv_types=None, fold=None, tag=None, keep=None):
+        return Walker(self.resolver(recv_types), max_paths=max_paths, inline_depth=inline_depth, fold=fold, tag=tag, keep=keep)
 
     # ------------------------------------------------------ strategy table
     def strategies(self, ci):
